@@ -61,6 +61,10 @@ def pydicom_order_facts() -> Dict[str, bool]:
     return facts
 
 
+def ps3_7_no_dataset() -> int:
+    return 0x0101      # PS3.7 6.3.1 / E.1: CommandDataSetType 0101H = no data set present
+
+
 def run(repo, rep):
     dm = repo.module('dimsemessages')
     hier = exc_hierarchy(repo)
@@ -92,9 +96,18 @@ def run(repo, rep):
                 if not calls or [norm(a) for a in calls[0].args[1:3]] != [iv, le]:
                     probs.append('read_dataset is not called with (%s, %s) in that order' % (iv, le))
             else:
-                asg = {norm(n.targets[0]): norm(n.value) for n in ast.walk(f.node) if isinstance(n, ast.Assign)}
-                if asg.get('fp.is_implicit_VR') != iv or asg.get('fp.is_little_endian') != le:
-                    probs.append('writer flags are set from %s / %s' % (asg.get('fp.is_implicit_VR'), asg.get('fp.is_little_endian')))
+                # provenance: the buffer handed to the pydicom writer carries the two flags from the parameters
+                cl0 = SymClient(repo, f, event_of=lambda call, callee, *_: 'write' if callee.rsplit('.', 1)[-1] in
+                                ('write_dataset', 'write_data_element') else None, hierarchy=exc_hierarchy(repo))
+                cl0.run(empty_state())
+                writes = [(e_, s_) for e_, s_ in cl0.log if e_.kind == 'write']
+                if not writes:
+                    probs.append('the pydicom writer is never called')
+                for e_, s_ in writes:
+                    buf = e_.args[0] if e_.args else '?'
+                    got = [s_.field('EXT:' + buf, 'is_implicit_VR'), s_.field('EXT:' + buf, 'is_little_endian')]
+                    if got != [iv, le]:
+                        probs.append('writer flags are set from %s / %s' % (got[0], got[1]))
         rep.check(not probs, 'C08.M0', 'dsutils:%s:flag-wiring' % fname, f.loc(),
                   '(x, is_implicit_vr, is_little_endian) wired in that order', '; '.join(probs))
     probs = []
@@ -162,12 +175,33 @@ def run(repo, rep):
     # __init__ builds the command set from these tables
     init = base.find_method('__init__')
     rep.analysed(init)
-    src = norm(init.node)
     probs = []
-    if 'self.command_set.CommandField = self.command_field' not in src:
-        probs.append('CommandField is not set from the class constant')
-    if not any(isinstance(n, ast.For) and norm(n.iter) == 'self.command_fields' for n in ast.walk(init.node)):
-        probs.append('the elements of command_fields are not created')
+    ci = SymClient(repo, init, event_of=lambda call, callee, *_: 'setattr' if callee == 'setattr' else None,
+                   hierarchy=exc_hierarchy(repo))
+    fin_i = ci.final_states(ci.run(empty_state()))
+    cs_param = init.params[1] if len(init.params) > 1 else 'command_set'
+    n_blank = 0
+    for s_, how in fin_i:
+        if how.startswith('raise'):
+            continue
+        obj = s_.field('EXT:self', 'command_set')
+        if obj == cs_param:
+            continue        # the caller's (decoded) command set is adopted as is
+        n_blank += 1
+        if obj is None:
+            probs.append('a path leaves command_set unset')
+            continue
+        if s_.field('EXT:' + obj, 'CommandField') != 'self.command_field':
+            probs.append('CommandField is not set from the class constant')
+        if s_.field('EXT:' + obj, 'CommandDataSetType') != str(ps3_7_no_dataset()):
+            probs.append('a new message does not start as "no data set" (CommandDataSetType %s)'
+                         % s_.field('EXT:' + obj, 'CommandDataSetType'))
+        sa = [e_ for e_, _st in ci.log if e_.kind == 'setattr' and len(e_.args) >= 2 and e_.args[0] in (obj, 'self.command_set')
+              and e_.args[1] == 'ITEM(self.command_fields)']
+        if not sa:
+            probs.append('the elements of command_fields are not created')
+    if n_blank == 0:
+        probs.append('no path creates a blank command set')
     rep.check(not probs, 'C08.M1', 'dimsemessages:DIMSEMessage.__init__:command-set-construction', init.loc(),
               'CommandField from command_field; one element per keyword of command_fields', '; '.join(probs))
 
